@@ -94,7 +94,7 @@ func c03Confs(tier string) []c03Conf {
 func init() {
 	Register(Meta{
 		ID: "C03", Level: "exploration",
-		Rule: "every profile with k<=K minCount validations, each listed under any subset of {violation,warning,info}, x undefined extra names per level x empty-level spelling x profile-name spelling; evaluated on the 2^k truth-table graph and on a graph with no target node under 15 report configurations (dateCreated flag x schema IRIs x 4 clocks). Non-trivial = profile whose expected report has at least one result and whose expected severities are not all Violation, or that has no result at all on the no-target graph (both conforms values occur); distinct by profile text.",
+		Rule:        "every profile with k<=K minCount validations, each listed under any subset of {violation,warning,info}, x undefined extra names per level x empty-level spelling x profile-name spelling; evaluated on the 2^k truth-table graph and on a graph with no target node under 15 report configurations (dateCreated flag x schema IRIs x 4 clocks). Non-trivial = profile whose expected report has at least one result and whose expected severities are not all Violation, or that has no result at all on the no-target graph (both conforms values occur); distinct by profile text.",
 		Assumptions: []string{"atomic constraint minCount 1 behaves as 'has a value' (checked separately by C01 atom catalogue)"},
 	}, c03Gen, c03Run)
 }
